@@ -118,8 +118,8 @@ Fixpoint push_status (s : status) (l : list item) : list item :=
   match l with
   | [] => [IStatus s]
   | it :: r =>
-      match r, it with
-      | [], IStatus _ => [IStatus s]
+      match it, r with
+      | IStatus _, [] => [IStatus s]
       | _, _ => it :: push_status s r
       end
   end.
